@@ -315,7 +315,7 @@ example : OpsOK (new (Db.empty.set (0, 0) [(1, 10)]))
 
 /-! ### revert (partial)
 
-Full statement (not proved here; it is C02's `revert_keeps_only_force_writes`, and is exercised on
+Full statement (proved at the end of this file as `revert_spec_other` + `revert_spec_force`; also exercised on
 the implementation by the c12 oracle keys `state-updates-not-diff:*` after a `revert` and
 `revert:panic`):
 
@@ -1100,5 +1100,48 @@ theorem revert_state_updates_meaning (t t' : Track) (hr : revert t = some t')
       rw [← hr]; exact hd
   exact state_updates_meaning t' (revert_preserves_nodup t t' hr hn)
     (revert_preserves_sorted t t' hr hn.outer hs) hd' n p k
+
+/-! ### `revert_spec`: what a failed transaction commits -/
+
+theorem revert_db (t t' : Track) (hr : revert t = some t') : t'.db = t.db := by
+  simp only [revert] at hr
+  split at hr
+  · exact absurd hr (by simp)
+  · simp only [Option.some.injEq] at hr
+    rw [← hr]
+
+/-- `revert_spec` (the statement quoted at the top of the revert section), as two theorems.
+A failed transaction commits, for every substate that was NOT force-written, the base database
+value (nothing changes) … -/
+theorem revert_spec_other (t t' : Track) (hr : revert t = some t')
+    (hn : NodesNodup t.nodes) (hs : AllSorted t.nodes) (hd : t.deleted = [])
+    (n p k : Nat) (hout : ¬ InForce t.force n p k) :
+    (t'.db.commit (toStateUpdates t').2).get (n, p) k = t.db.get (n, p) k := by
+  rw [revert_state_updates_meaning t t' hr hn hs hd]
+  unfold effCommit
+  rw [← lookupIn_eq, revert_db t t' hr]
+  cases hl : lookupIn t'.nodes n p k with
+  | none => rfl
+  | some tv =>
+    simp only []
+    rw [revert_keeps_only_force_writes t t' hr hn.outer n p k hout tv hl]
+
+/-- … and for every force-written substate the force-written value (or the base value if the
+force-written tracked value carries no write). -/
+theorem revert_spec_force (t t' : Track) (hr : revert t = some t')
+    (hn : NodesNodup t.nodes) (hs : AllSorted t.nodes) (hd : t.deleted = [])
+    (hnd : NodesNodup t.force)
+    (n : Nat) (nd : TNode) (hnm : (n, nd) ∈ t.force)
+    (p : Nat) (part : TPart) (hp : (p, part) ∈ nd.parts) (hpn : IMap.Nodup part)
+    (k : Nat) (tv : TV) (hm : (k, tv) ∈ part) :
+    (t'.db.commit (toStateUpdates t').2).get (n, p) k
+      = match tv.toUpdate with
+        | some u => u
+        | none => t.db.get (n, p) k := by
+  rw [revert_state_updates_meaning t t' hr hn hs hd]
+  unfold effCommit
+  rw [← lookupIn_eq, revert_db t t' hr,
+    revert_keeps_force_writes t t' hr hnd n nd hnm p part hp hpn k tv hm]
+  rfl
 
 end Radix.Track
